@@ -29,7 +29,7 @@ REPO = os.environ.get("PYABV_REPO", "/repo")
 PYTHON = os.environ.get("PYABV_PYTHON", "/venv/bin/python")
 ALL_IDS = ["C%02d" % i for i in range(1, 19)]
 MAX_HASHES_PER_SHARD = 400_000
-MAX_VIOLATIONS_KEPT = 40
+MAX_VIOLATIONS_KEPT = 120
 
 
 def h64(*parts) -> int:
@@ -121,6 +121,7 @@ class Ctx:
         self.notes = {}
         self.inconclusive = []
         self.layers = {}
+        self._per_mech = {}
 
     # -- sizing -----------------------------------------------------------------------------
     def n(self, quick, thorough):
@@ -177,7 +178,12 @@ class Ctx:
         one case; mechanism: classifier key matched against known_findings.json."""
         self.nviolations += 1
         self.count("violations/" + kind)
-        if len(self.violations) < MAX_VIOLATIONS_KEPT:
+        self.count("mechanism/" + str(mechanism))
+        # keep a few witnesses per mechanism, so that a frequent (possibly known) mechanism can
+        # never crowd out a rare one
+        per = self._per_mech.get(mechanism, 0)
+        if per < 6 and len(self.violations) < MAX_VIOLATIONS_KEPT:
+            self._per_mech[mechanism] = per + 1
             self.violations.append(
                 dict(kind=kind, mechanism=mechanism, witness=jsonable(witness), shard=self.shard, seed=self.base_seed)
             )
@@ -360,8 +366,10 @@ def finish(pid, tier, seed, mod, merged, problems, t0, nshards):
             known_hit.setdefault(v["mechanism"], []).append(v)
         else:
             real.append(v)
-    # violations beyond the kept ones: counted but not stored; they are attributed by kind counters
-    unkept = merged["nviolations"] - len(merged["violations"])
+    # witnesses are capped per mechanism; the counters carry the true totals per mechanism
+    mech_counts = {k[len("mechanism/"):]: v for k, v in merged["counters"].items() if k.startswith("mechanism/")}
+    n_real = sum(v for k, v in mech_counts.items() if k not in open_keys)
+    n_known = sum(v for k, v in mech_counts.items() if k in open_keys)
 
     distinct = len(merged["hashes"])
     min_nt = getattr(mod, "MIN_NONTRIVIAL", {"quick": 2, "thorough": 2})[tier]
@@ -389,7 +397,7 @@ def finish(pid, tier, seed, mod, merged, problems, t0, nshards):
             f.write(blob)
         replay_paths.append(path)
 
-    nviol = len(real) + (unkept if real or not known_hit else 0)
+    nviol = max(n_real, len(real))
     coverage = dict(
         evaluations=merged["evaluations"],
         distinct_nontrivial=distinct,
@@ -422,10 +430,10 @@ def finish(pid, tier, seed, mod, merged, problems, t0, nshards):
     os.replace(tmp, os.path.join(HOME, "evidence", f"{pid}.json"))
 
     for key, vs in sorted(known_hit.items()):
-        print(f"KNOWN-FINDING: property={pid} {open_keys[key]['what']} [{key}; reproduced {len(vs)}x this run]")
+        print(f"KNOWN-FINDING: property={pid} {open_keys[key]['what']} [{key}; reproduced {mech_counts.get(key, len(vs))}x this run]")
     print(
         f"{pid} {tier} seed={seed}: evaluations={merged['evaluations']} distinct_nontrivial={distinct} "
-        f"violations={len(real)} known={sum(len(v) for v in known_hit.values())} wall={ev['wall_s']}s"
+        f"violations={nviol} known={n_known} wall={ev['wall_s']}s"
     )
     if real:
         for v, path in zip(real, replay_paths):
